@@ -39,7 +39,7 @@ func genUDPCase(r *Rng, prop string) udpCaseSpec {
 		}
 		if len(pub) > 0 && len(priv) > 1 {
 			pick := cs.Cfg[r.Intn(len(cs.Cfg))]
-			client := r.Intn(5)
+			client := []int{0, 1, 2, 3, 4, 5, 0, 2, 4}[r.Intn(9)]
 			x, y := priv[r.Intn(len(priv))], priv[r.Intn(len(priv))]
 			for _, k := range []int{pub[r.Intn(len(pub))], x, x, y, x, pub[r.Intn(len(pub))], y, y} {
 				op := udpOp{Kind: "honest", Client: client, C: pick.C, S: pick.S, Seed: uint32(r.U64()), AKind: k,
@@ -78,7 +78,7 @@ func genUDPCase(r *Rng, prop string) udpCaseSpec {
 				}
 			}
 		}
-		client := r.Intn(5)
+		client := []int{0, 1, 2, 3, 4, 5, 0, 2, 4}[r.Intn(9)]
 		if n := len(cs.Ops); n > 0 && cs.Ops[n-1].Kind == "honest" && r.Chance(35) {
 			// same client again, often to the same destination: the second datagram of a flow
 			client = cs.Ops[n-1].Client
